@@ -76,6 +76,38 @@ func c03Gen(rng *rand.Rand, tier string) []Case {
 		b := a + 2 + uint64(rng.Intn(8)) // above the first refutation's join time (a+1), so it needs a refutation of its own
 		out = append(out, Case{ID: fmt.Sprintf("b%d", i), Ops: []string{fmt.Sprintf("ml2 %d %d %d", a, b, rng.Intn(2))}, Tags: []string{"back-to-back-claims"}})
 	}
+	// claims about the local node delivered while a Join() call is in flight (each costs ~0.4 s of wall time)
+	nj := 8
+	if tier == "thorough" {
+		nj = 60
+	}
+	for i := 0; i < nj; i++ {
+		var ops []string
+		cur := uint64(0)
+		for j, k := 0, rng.Intn(3); j < k; j++ {
+			switch rng.Intn(3) {
+			case 0:
+				ops = append(ops, "nj "+hexs("a"))
+			case 1:
+				t := cur + 1 + uint64(rng.Intn(5))
+				ops = append(ops, fmt.Sprintf("mj %s %d", hexs(nodeSelf), t))
+				cur = t
+			default:
+				t := cur + 1 + uint64(rng.Intn(5))
+				ops = append(ops, fmt.Sprintf("ml %s %d 0", hexs(nodeSelf), t))
+				cur = t + 1
+			}
+		}
+		lt := cur + uint64(rng.Intn(4)) // sometimes not newer, mostly newer
+		if rng.Intn(4) > 0 {
+			lt = cur + 1 + uint64(rng.Intn(20))
+		}
+		ops = append(ops, fmt.Sprintf("jl %d %d", lt, rng.Intn(2)))
+		if rng.Intn(2) == 0 {
+			ops = append(ops, fmt.Sprintf("ml %s %d 0", hexs(nodeSelf), lt+2+uint64(rng.Intn(3))))
+		}
+		out = append(out, Case{ID: fmt.Sprintf("j%d", i), Ops: ops, Tags: []string{"claim-during-join"}})
+	}
 	self := hexs(nodeSelf)
 	for i := range out {
 		nt := false
@@ -87,6 +119,9 @@ func c03Gen(rng *rand.Rand, tier string) []Case {
 			if f[0] == "ml2" {
 				nt = true
 				break
+			}
+			if f[0] == "jl" {
+				nt = true
 			}
 			if (f[0] == "ml" || f[0] == "fl") && f[1] == self {
 				nt = true
@@ -103,7 +138,7 @@ func c03Gen(rng *rand.Rand, tier string) []Case {
 func init() {
 	register(&Prop{
 		ID: "C03",
-		Rule: "one real serf node per case; directed: 3-10 claims about the local node (leave ± prune by gossip, force-leave, listed as left in a merge) at times ≤ own status time, +1, +k, random 63-bit, 2^64-2, interleaved with own joins, join intents about self, reaper ticks; " +
+		Rule: "one real serf node per case; claims about the local node delivered WHILE a Join() call to a mute TCP peer is in flight (8 quick / 60 thorough); directed: 3-10 claims about the local node (leave ± prune by gossip, force-leave, listed as left in a merge) at times ≤ own status time, +1, +k, random 63-bit, 2^64-2, interleaved with own joins, join intents about self, reaper ticks; " +
 			"random: sequences biased to the local node as subject (70%) incl. 2^64-1, Leave and Shutdown; non-trivial = a leave claim about the local node before any Leave/Shutdown; distinct = distinct op sequence",
 		Gen:  c03Gen,
 		Exec: nodeExec,
